@@ -759,6 +759,16 @@ func runC09(w *World, r *Report) {
 			cons := fmt.Sprintf("%s | mapDBAndCollectionName#%d", host, k)
 			ok0 := r0 == "db"
 			ok1 := r1 == "collection" || r1 == "empty"
+			if r1 == "empty" {
+				// a function that was handed the collection's name must map with it: a collection-level entry decides
+				// the target database as well (WaitDatabaseReady(ctx, database, collection, …))
+				for _, prm := range rootFunc(fn).Params {
+					if b, isB := prm.Type().Underlying().(*types.Basic); isB && b.Kind() == types.String && identRole(prm.Name()) == "collection" {
+						r.Fail("C09-R7", cons+" | collection at hand", ci.Pos(), "the enclosing function has the collection name ("+prm.Name()+") but maps the database with an empty collection: a collection-level mapping entry is ignored (or an arbitrary entry of the database is taken), so the database probed / routed to is not the mapped one")
+						return
+					}
+				}
+			}
 			r.Check(ok0 && ok1, "C09-R7", cons, ci.Pos(), fmt.Sprintf("args carry (%s, %s)", r0, r1), fmt.Sprintf("argument roles are (%s, %s), expected (db, collection|empty)", r0, r1))
 		})
 	}
